@@ -95,7 +95,17 @@ pub fn builder_from(tokens: &[&str]) -> Result<rpm::PackageBuilder, rpm::Error> 
             if flags & 64 != 0 { o = o.is_ghost(); }
             if flags & 128 != 0 { o = o.is_license(); }
             if flags & 256 != 0 { o = o.is_readme(); }
-            b = b.with_file(&src, o)?;
+            // every third source is handed over through a symbolic link: the builder must package (and inherit
+            // mode / mtime from) the file the path resolves to, as `File::open` + `metadata()` do
+            if seed % 3 == 1 {
+                let lnk = dir.join(format!("src{}.lnk", fi));
+                let _ = std::fs::remove_file(&lnk);
+                // relative target, resolved in the link's own directory
+                std::os::unix::fs::symlink(src.file_name().unwrap(), &lnk)?;
+                b = b.with_file(&lnk, o)?;
+            } else {
+                b = b.with_file(&src, o)?;
+            }
         } else if let Some(r) = t.strip_prefix("dp=") {
             let p: Vec<&str> = r.split(':').collect();
             let d = rpm::Dependency { name: hs(p[1]), flags: rpm::DependencyFlags::from_bits_retain(p[2].parse().unwrap()), version: hs(p[3]) };
